@@ -29,12 +29,14 @@ type E3Workload struct {
 	Double     bool `json:"double"` // two failing Checks of the same test in one process
 	TmpOtherFS bool `json:"tmpdir_other_fs"` // the child's TMPDIR lives on another file system (tmpfs)
 	NoDraw     bool `json:"no_draw"`         // the property draws nothing (with Lines == 0: empty output AND empty bitstream)
+	Flaky      bool `json:"flaky"`           // first execution fails at one site, later ones at another: rapid reports a flaky test (and still saves)
 }
 
 // normal: combinations that are not supported together are reduced to the simpler one.
 func (wl E3Workload) normal() E3Workload {
 	if wl.Double {
 		wl.PreState = "empty"
+		wl.Flaky = false
 	}
 	return wl
 }
@@ -305,7 +307,7 @@ func (b *build) e3RunWorkload(wl E3Workload, root string, only int) *e3Result {
 		return res
 	}
 	rep, err := readReport(filepath.Join(root, "base.report"))
-	if err != nil || (rep.Verdict != "fail" && rep.Verdict != "panic") {
+	if err != nil || (rep.Verdict != "fail" && rep.Verdict != "panic" && !(wl.Flaky && rep.Verdict == "flaky")) {
 		res.Harness = fmt.Sprintf("baseline did not fail as planned: %v %+v", err, rep)
 		return res
 	}
@@ -473,7 +475,7 @@ func (b *build) e3RunWorkload(wl E3Workload, root string, only int) *e3Result {
 					res.Viols = append(res.Viols, e3Violation{Rule: "C16.J2", Sig: "complete-file-not-replayed", Workload: wl, Point: k, Call: c, Msg: fmt.Sprintf("a complete fail file exists after crash point #%d but the next run did not replay it", k)})
 				}
 			default:
-				if (!wl.Double && !sameBuf(r2.FirstBuf, rep.FinalBuf)) || r2.AfterTests != 0 {
+				if (!wl.Double && !sameBuf(r2.FirstBuf, rep.FinalBuf)) || (!wl.Flaky && r2.AfterTests != 0) {
 					res.Viols = append(res.Viols, e3Violation{Rule: "C16.J2", Sig: "other-case-replayed", Workload: wl, Point: k, Call: c,
 						Msg: fmt.Sprintf("killed before call #%d (%s[%d]): the next run replayed %d words (after %d tests), the uninterrupted save holds %d words; directory: %v", k, c.Name, c.Ordinal, len(r2.FirstBuf), r2.AfterTests, len(rep.FinalBuf), all)})
 				}
@@ -504,7 +506,7 @@ func e3GenWorkload(seed uint64, idx int, tier string) E3Workload {
 	kinds := []int{1, 6, 4, 10} // Fatalf, panic(string), Errorf, nil-map-write
 	wl := E3Workload{Name: names[next(len(names))], Lines: lines, LineLen: 1 + next(200), Words: []int{0, 1, 8, 64}[next(4)], Seed: 1 + uint64(next(1<<30)),
 		FailKind: kinds[next(len(kinds))], PreState: []string{"empty", "dir-exists", "crashed-save-leftover"}[next(3)], TmpOtherFS: next(4) == 0, Double: next(5) == 0,
-		NoDraw: idx%6 == 0 || next(8) == 0}
+		NoDraw: idx%6 == 0 || next(8) == 0, Flaky: idx%6 == 4 || next(10) == 0}
 	if wl.NoDraw && wl.Lines == 0 {
 		// nothing drawn and nothing logged (Fatalf/Errorf log their message): the fail file has neither output nor data
 		wl.FailKind = []int{6, 10}[next(2)]
